@@ -1347,6 +1347,22 @@ fn gen_c07(ctx: &mut Ctx) {
             }
         }
     }
+    // the first edit of a page built over somebody else's bytes (borrowed, and owned) is a REDUNDANT one: a pixel is set to
+    // the value it already has, in a byte where other pixels are lit -- nothing may change
+    for (w, h) in [(8u32, 8u32), (90, 7), (40, 12), (7, 10), (3, 17)] {
+        let (w64, h64) = (w as u64, h as u64);
+        let total = total_bytes(w64, h64) as usize;
+        for k in 0..(if ctx.tier_thorough { 96 } else { 24 }) {
+            let bytes = rng.bytes(total);
+            let (x, y) = (rng.below(w64) as u32, rng.below(h64) as u32);
+            let cur = (bytes[(4 + (x as u64) * bpc(h64) + (y as u64) / 8) as usize] >> (y % 8)) & 1;
+            let line = format!("PG {} {} {}.{} S.{}.{}.{} G.{}.{}", w, h, if k % 2 == 0 { "B" } else { "O" }, hex_of_bytes(&bytes), x, y, cur, x, y);
+            let res = ctx.case(line.clone(), true, "redundant-first-edit");
+            let toks: Vec<&str> = res.split(' ').collect();
+            let ok = toks.first() == Some(&"=") && toks.get(1) == Some(&cur.to_string().as_str()) && res.contains(&hex_of_bytes(&bytes));
+            ctx.monitor(ok, "C07-pixel-location", &line, &res[..res.len().min(120)]);
+        }
+    }
     gen_c07_extreme(ctx);
 }
 
